@@ -1,6 +1,6 @@
 """GD: guard-dominance helpers.  A guard is a SwitchInt on a boolean (or discriminant) whose condition expression is
 matched semantically after normalisation (operand orientation, negation, branch polarity)."""
-from .mirlib import norm_cmp, edge_truth, strip, strip_casts, fmt, call_info
+from .mirlib import norm_cmp, edge_truth, strip, strip_casts, fmt, call_info, walk
 
 
 def bool_switches(body):
@@ -171,3 +171,60 @@ def none_becomes_err(body, opt_local):
                 elif kind == 'result' and info['fn'].endswith('Try::branch'):
                     return True
     return False
+
+
+def counted_while(body, h, loop_blocks, backs):
+    """`let mut c = a; while c < n { ..; c += k; }` with k a positive constant, n loop-invariant and c not otherwise
+    assigned in the loop: the hand-written form of a counted Range loop. Returns the description or None."""
+    d, _partial = body.defs()
+    for g in guards(body):
+        if g['bb'] not in loop_blocks:
+            continue
+        e = strip_casts(g['expr'])
+        neg = False
+        while isinstance(e, tuple) and e[0] == 'un' and e[1] == 'Not':
+            neg = not neg
+            e = strip_casts(e[2])
+        if not (isinstance(e, tuple) and e[0] == 'bin' and e[1] in ('Lt', 'Le', 'Gt', 'Ge', 'Ne')):
+            continue
+        a, c = strip_casts(e[2]), strip_casts(e[3])
+        if e[1] in ('Gt', 'Ge'):
+            a, c = c, a
+        stay, leave = (g['f'], g['t']) if neg else (g['t'], g['f'])
+        if stay not in loop_blocks or leave in loop_blocks:
+            continue
+        if a[0] != 'local':
+            continue
+        cnt = a[1]
+        # bound: no local of it is assigned inside the loop
+        inv = True
+        for x in walk(c):
+            if isinstance(x, tuple) and x[0] == 'local' and x[1] != 0:
+                for df in d.get(x[1], []):
+                    dbb = df[1] if df[0] in ('stmt', 'call') else None
+                    if dbb is not None and dbb in loop_blocks:
+                        inv = False
+        if not inv:
+            continue
+        incs, other = [], False
+        for df in d.get(cnt, []):
+            if df[0] == 'arg' or df[1] not in loop_blocks:
+                continue
+            if df[0] != 'stmt':
+                other = True
+                continue
+            r = strip_casts(body.expr_rvalue(df[3]['r'], inline_user=False))
+            if r[0] == 'field' and r[2] == '0':
+                r = r[1]
+            if r[0] == 'bin' and r[1].startswith('Add') and strip_casts(r[2]) == ('local', cnt, body.local_name(cnt) or '_%d' % cnt) and \
+                    strip_casts(r[3])[0] == 'const' and isinstance(strip_casts(r[3])[1], int) and strip_casts(r[3])[1] > 0:
+                incs.append(df[1])
+            else:
+                other = True
+        if other or not incs:
+            continue
+        srcs = [s_ for s_, hh in backs if hh == h]
+        if all(any(body.dominates(i, s_) for i in incs) for s_ in srcs):
+            return 'counter %s advances by a positive constant on every iteration towards the loop-invariant bound %s' % (
+                fmt(a), fmt(c))
+    return None
